@@ -180,54 +180,134 @@ func (bs *backends) compare(ctx context.Context, qs []askedQuery, bnd []time.Tim
 				run.Failures = append(run.Failures, fmt.Sprintf("backend %s errors: %s", b.name, strings.Join(b.errs, "; ")))
 			}
 			// the process may stop right after Sync: what a fresh process finds in the store
-			if b.name == "bbolt" && bs.m != nil {
-				bs.reopenBbolt(ctx, all, bnd, run)
+			if bs.m != nil {
+				bs.reopen(ctx, b.name, all, bnd, run)
 			}
 		}()
 	}
 }
 
-// reopenBbolt: a copy of the store file as it is on disk right after Sync (the state a process
-// stopped at this point leaves behind) is opened by a fresh history on a fresh machine of the same
-// id; it must hold the records that had been synced.
-func (bs *backends) reopenBbolt(ctx context.Context, synced []*amhist.MemoryRecord, bnd []time.Time, run *Run) {
-	src, err := os.ReadFile(bs.dir + "/bbolt.db")
+// copyTree copies files and directories whose name starts with prefix from dir to the same names
+// with the prefix replaced.
+func copyTree(dir, prefix, to string) error {
+	ents, err := os.ReadDir(dir)
 	if err != nil {
+		return err
+	}
+	for _, e := range ents {
+		if !strings.HasPrefix(e.Name(), prefix) {
+			continue
+		}
+		src, dst := dir+"/"+e.Name(), dir+"/"+to+strings.TrimPrefix(e.Name(), prefix)
+		if e.IsDir() {
+			if err := os.MkdirAll(dst, 0o700); err != nil {
+				return err
+			}
+			sub, err := os.ReadDir(src)
+			if err != nil {
+				return err
+			}
+			for _, f := range sub {
+				if f.IsDir() || f.Name() == "LOCK" {
+					continue
+				}
+				b, err := os.ReadFile(src + "/" + f.Name())
+				if err != nil {
+					return err
+				}
+				if err := os.WriteFile(dst+"/"+f.Name(), b, 0o600); err != nil {
+					return err
+				}
+			}
+			continue
+		}
+		b, err := os.ReadFile(src)
+		if err != nil {
+			return err
+		}
+		if err := os.WriteFile(dst, b, 0o600); err != nil {
+			return err
+		}
+	}
+	return nil
+}
+
+// reopen: a copy of the store as it is on disk right after Sync (the state a process stopped at
+// this point leaves behind) is opened by a fresh history on a fresh machine of the same id; it
+// must hold the records that had been synced.
+func (bs *backends) reopen(ctx context.Context, name string, synced []*amhist.MemoryRecord, bnd []time.Time, run *Run) {
+	crash := "crash" + name
+	if err := copyTree(bs.dir, name, crash); err != nil {
 		return
 	}
-	if err := os.WriteFile(bs.dir+"/crash.db", src, 0o600); err != nil {
-		return
-	}
-	db, err := ambbolt.NewDb(bs.dir + "/crash")
-	if err != nil {
-		run.Failures = append(run.Failures, "backend bbolt reopen: the store left behind after Sync cannot be opened, "+err.Error())
-		return
-	}
-	defer db.Close()
 	m2 := am.New(ctx, bs.m.Schema(), &am.Opts{Id: bs.m.Id()})
 	defer m2.Dispose()
 	if err := m2.VerifyStates(bs.m.StateNames()); err != nil {
 		return
 	}
 	var errs []string
-	mem, err := ambbolt.NewMemory(ctx, db, m2, bs.cfg, func(err error) { errs = append(errs, err.Error()) })
-	if err != nil {
-		run.Failures = append(run.Failures, "backend bbolt reopen: a fresh history cannot attach to the store left behind after Sync, "+err.Error())
+	onErr := func(err error) { errs = append(errs, err.Error()) }
+	var mem amhist.MemoryApi
+	switch name {
+	case "bbolt":
+		db, err := ambbolt.NewDb(bs.dir + "/" + crash)
+		if err != nil {
+			run.Failures = append(run.Failures, "backend bbolt reopen: the store left behind after Sync cannot be opened, "+err.Error())
+			return
+		}
+		defer db.Close()
+		x, err := ambbolt.NewMemory(ctx, db, m2, bs.cfg, onErr)
+		if err != nil {
+			run.Failures = append(run.Failures, "backend bbolt reopen: a fresh history cannot attach to the store left behind after Sync, "+err.Error())
+			return
+		}
+		mem = x
+	case "badger":
+		db, err := ambadger.NewDb(bs.dir + "/" + crash)
+		if err != nil {
+			run.Failures = append(run.Failures, "backend badger reopen: the store left behind after Sync cannot be opened, "+err.Error())
+			return
+		}
+		defer db.Close()
+		x, err := ambadger.NewMemory(ctx, db, m2, ambadger.Config{BaseConfig: bs.cfg.BaseConfig, QueueBatch: bs.cfg.QueueBatch}, onErr)
+		if err != nil {
+			run.Failures = append(run.Failures, "backend badger reopen: a fresh history cannot attach to the store left behind after Sync, "+err.Error())
+			return
+		}
+		mem = x
+	case "gorm":
+		db, sqlDb, err := amgorm.NewDb(bs.dir+"/"+crash, false)
+		if err != nil {
+			run.Failures = append(run.Failures, "backend gorm reopen: the store left behind after Sync cannot be opened, "+err.Error())
+			return
+		}
+		defer sqlDb.Close()
+		x, err := amgorm.NewMemory(ctx, db, m2, amgorm.Config{BaseConfig: bs.cfg.BaseConfig, QueueBatch: bs.cfg.QueueBatch}, onErr)
+		if err != nil {
+			run.Failures = append(run.Failures, "backend gorm reopen: a fresh history cannot attach to the store left behind after Sync, "+err.Error())
+			return
+		}
+		mem = x
+	default:
 		return
 	}
 	got, err := mem.FindLatest(ctx, false, 0, amhist.Query{})
 	if err != nil {
-		run.Failures = append(run.Failures, "backend bbolt reopen: query failed, "+err.Error())
+		run.Failures = append(run.Failures, "backend "+name+" reopen: query failed, "+err.Error())
 		return
 	}
 	run.Reopened++
+	if run.ReopenedBy == nil {
+		run.ReopenedBy = map[string]int{}
+	}
+	run.ReopenedBy[name]++
 	if len(got) != len(synced) {
-		run.Failures = append(run.Failures, fmt.Sprintf("backend bbolt reopen: a process stopped right after Sync leaves %d records behind, %d had been synced", len(got), len(synced)))
+		run.Failures = append(run.Failures, fmt.Sprintf("backend %s reopen: a process stopped right after Sync leaves %d records behind, %d had been synced", name, len(got), len(synced)))
 		return
 	}
 	for i := range got {
 		if recStr(got[i], bnd) != recStr(synced[i], bnd) {
-			run.Failures = append(run.Failures, fmt.Sprintf("backend bbolt reopen: record %d differs after reopening: %s vs %s", i, recStr(got[i], bnd), recStr(synced[i], bnd)))
+			run.Failures = append(run.Failures, fmt.Sprintf("backend %s reopen: record %d differs after reopening: %s vs %s", name, i, recStr(got[i], bnd), recStr(synced[i], bnd)))
 			return
 		}
 	}
